@@ -558,6 +558,10 @@ class C20(Prop):
                     want = ['e'] if case['end'] == 'error' else ['c']
                     if term != want:
                         add('terminal-signal-altered', 'server ended with %s, observer saw %s' % (case['end'], term))
+                    elif obs['cancels']:
+                        # as with the core API: a stream that ended by itself is not cancelled afterwards
+                        add('cancel-for-a-stream-that-ended-by-itself', 'the stream ended with %s after %d elements and was not disposed: the client sent %d CANCEL frame(s) for it' % (
+                            case['end'], obs['delivered'], obs['cancels']))
             else:
                 if obs['cancels'] != 1 and not (case['end'] == 'flag' and obs['delivered'] == case['count'] and case['count'] > 0):
                     add('dispose-does-not-cancel', 'observable disposed after %d elements, %d CANCEL frames' % (obs['delivered'], obs['cancels']))
